@@ -31,6 +31,10 @@ func c08Queries() []c08Query {
 		{model.Or(ax, model.Not(model.Eq("b", "y"))), []string{"b"}},
 		{model.Not(model.Eq("a", "zz")), []string{"a", "c"}}, // c exists in index 0 only: the failing execution on index 1 must leave no trace
 		{model.Eq("c", "1"), []string{"b", "a", "b"}},
+		// values that exist in neither / only one of the two indexes, in first, middle and last operand position
+		{model.Or(model.Eq("a", "zz"), ax, model.Eq("a", "w")), nil},
+		{model.And(model.Not(model.Eq("a", "zz")), model.Or(model.Eq("b", "q"), model.Eq("b", "y"), model.Eq("b", "zz"))), []string{"a"}},
+		{model.Not(model.Or(model.Eq("a", "k"), model.Eq("a", "w"), ax)), nil},
 	}
 }
 
